@@ -140,7 +140,9 @@ def run_program(ctx, nruns):
 def run(ctx):
     ctx.rule = ("rfoffs: RFKickMap (linear / sinusoidal constructor, optionally after _calcKick(phase, ampl)) + DriftMap "
                 "(1..3 slip factors) + Ruler on grids n 8..64, nb 1..3, dyadic and arbitrary float axes: every entry of both offset "
-                "vectors and the Ruler facts vs the extracted model. rfiter: RF kick + drift iterated over a full period "
+                "vectors and the Ruler facts vs the extracted hand-written model AND vs the model generated from RFKickMap.cpp / DriftMap.cpp "
+                "(Gen_RFDrift: constructors and _calcKick run from the constructor arguments; _bl2phase to one binary32 rounding; the table must be built from the "
+                "final offsets on both sides); oracles on the implementation: linear kick, sinusoidal kick, drift field, synchronous phase. rfiter: RF kick + drift iterated over a full period "
                 "(steps 20..400) on n in {32,48,64}, it 2..4, integer and half-integer zero-bin shifts in x and y, Gaussian / two-lump / "
                 "signed blobs: raw first moments after every step vs the exact orbit M^k c0 of the model; fit of the one-step map; "
                 "closure after one period. Non-trivial: centroid at least 1.5 cells from the zero bin and >= 3 steps.")
@@ -153,6 +155,20 @@ def run(ctx):
         dis += run_program(ctx, 10)
     program_multibunch(ctx)
     ctx.extra["correspondence_disagreements"] = len(dis)
+    # downgrade rule of DESIGN 2.2 for the offset-field translator (family rfgen): when translate/rfdrift2coq.py no longer
+    # recognises RFKickMap.cpp / DriftMap.cpp (a restructuring outside its idioms) the last-good Gen_RFDrift.v keeps the
+    # development building; if then every theorem still checks (about the last-good definitions) AND this run's full
+    # correspondence - every entry of both offset vectors of every rfoffs case against the hand-written model AND against the
+    # last-good generated model, the member values, the table-built-from-the-final-offsets flags, the iterated maps against
+    # the exact orbit, the binary - shows no disagreement and no oracle fires, the property is shown through tie 2 as before
+    # the translator existed, and the downgrade is recorded.
+    failed = [g for g, st in coq["gen"].items() if st.startswith("failed")]
+    if failed == ["Gen_RFDrift"] and coq["make_ok"] and coq["props"]["ok"] and not coq["forbidden"] and coq["extract_ok"] \
+            and not dis and not ctx.violations and ctx.evaluations > 0:
+        ctx.extra["translators"]["Gen_RFDrift"] = "downgraded-to-correspondence (" + coq["gen"]["Gen_RFDrift"][:200] + ")"
+        ctx.notes.append("Gen_RFDrift: translator failed; the last-good generated offset fields and the hand-written model agree with the "
+                         "implementation on every entry of every case of this run and every oracle holds: downgraded to tie 2")
+        coq = dict(coq, ok=True)
     ctx.assumptions += ["exact-arithmetic model; float rounding is carried by tolerances derived from operation counts (lib/rf_cases.py: tol_orbit, compare_offs)",
                         "tan(angle), _bl2phase, the sine samples and the scale of axis 1 are taken from the implementation as exact dyadic numbers; "
                         "tan and sin are cross-checked against libm on the Python side",
